@@ -334,6 +334,8 @@ def decide(prop_id, relations, tier, seed, wd):
     if 'coqchk' in obl:
         coverage['coqchk_output'] = obl['coqchk']
     C.write_evidence(prop_id, tier, seed, coverage, time.time() - t0, n_viol)
+    for b in broken:
+        print('BROKEN: ' + ' '.join(b.split())[:400])
     for l in lines:
         print(l)
     print('%s tier=%s obligations=%d/%d relations=%d evaluations=%d violations=%d wall=%.1fs'
